@@ -22,4 +22,8 @@ theorem nonprefixable_slice_03_0 : nonprefixableSliceOk 3 0 = true := by decide 
 theorem nonprefixable_slice_03_1 : nonprefixableSliceOk 3 1 = true := by decide +kernel
 theorem nonprefixable_slice_03_2 : nonprefixableSliceOk 3 2 = true := by decide +kernel
 
+/-- the body of `generate_name_alternatives`' outer loop, for the table keys number i ≡ 3 (mod 16),
+    started in the state the real generator had there, appends exactly what the real one appended -/
+theorem gen_chunk_03 : genChunkOk 3 = true := by decide +kernel
+
 end Unyt.C14
